@@ -246,3 +246,23 @@ Theorem C12_abort_clears_image_space :
   sc (xs x') (ApiOps.img_small o) = 0 /\ sc (xs x') (ApiOps.img_large o) = 0.
 Proof. exact abortc_clears. Qed.
 Print Assumptions C12_abort_clears_image_space.
+
+(* saved markers and the marker reader's methods: a tables-only header ends in jpeg_abort (which
+   empties marker_list), and the bailout block of tj3DecodeYUVPlanes8 puts the original marker-reader
+   methods back; with these facts every call returns with marker_list == NULL and the original
+   methods installed (part of `at_start`, hence of C12_history_independence_partial's invariant) *)
+Theorem C12_marker_list_and_methods_restored :
+  read_header_tables_only_aborts = true /\
+  match find_fn "tj3DecodeYUVPlanes8" api_functions with
+  | Some f => match fn_bailout f with
+              | Some b => existsb (fun h => match h with HRestoreMarkerMethods HAlways => true | _ => false end) b = true
+              | None => False
+              end
+  | None => False
+  end.
+Proof. exact marker_facts. Qed.
+Print Assumptions C12_marker_list_and_methods_restored.
+Theorem C12_every_call_returns_idle :
+  forall fx c x, ok_hist fx (c_kind c) = true -> Inv x -> Inv (step fx c x).
+Proof. exact step_inv. Qed.
+Print Assumptions C12_every_call_returns_idle.
